@@ -109,6 +109,15 @@ class ENCODE_UTF8_VALUE(tbl.Cell):
         e, s = evs[i], evs[i + 1]
         if norm(e["args"][0]) != self.ch:
             return None, "encode_utf8 applied to %s, not the char" % sym.show(norm(e["args"][0]))
+        if s["key"] != tbl.SERIALIZE:
+            # serialize_str called directly (and analysed in place): varint(len) then the bytes of the encoded str
+            res = e["result"]
+            j = i + 1
+            for cell in (VAR(64, ("len", norm(res)), "encoded.len()"), BYTES_OF(norm(res), "encoded")):
+                j, err = cell.match(cx, evs, j)
+                if err:
+                    return None, "after encode_utf8: " + err
+            return j, None
         a0 = s["args"][0]
         got = norm(a0)
         if a0[0] == "ref" and a0[1][0] == "L" and s["snap"][0] is not None:
@@ -143,6 +152,9 @@ def ret_ok_shape(fn, cx, ret, last_fallible):
 def success_path(path):
     """True if no fallible call on this path was assumed to fail"""
     for atom, v in path.tagfacts.items():
+        if isinstance(v, tuple) and v and v[0] == "not":
+            rest = {0, 1} - set(v[1])
+            v = rest.pop() if len(rest) == 1 else v
         if atom[0] == "tag" and atom[1][0] == "call" and v == 1:
             return False
     return True
@@ -160,7 +172,7 @@ def check_method(run, F, helpers, fn, rule="T1"):
         return
     if fn.name == "collect_str":
         return check_collect_str(run, F, helpers, fn)
-    cells = spec_for(fn)
+    cells = cells0 = spec_for(fn)
     if cells is None:
         run.bad(rule, key, "no wire-format table cell for serializer method %s" % fn.name, site)
         return
@@ -175,6 +187,13 @@ def check_method(run, F, helpers, fn, rule="T1"):
             continue
         cx = tbl.SerCx(helpers, p, fn)
         evs = tbl.residual_calls(p)
+        cells = cells0
+        if fn.name == "serialize_char" and evs and evs[0]["key"].endswith("<impl char>::encode_utf8") and not any(e["key"] == tbl.SERIALIZE for e in evs) \
+                and norm(evs[0]["args"][0]) == P(fn, 2):
+            # serialize_str called directly and analysed in place: encode, varint(len), the bytes - as primitive cells so that the
+            # prefix rule for failure paths applies
+            res = norm(evs[0]["result"])
+            cells = [tbl.ANYCALL("<impl char>::encode_utf8"), VAR(64, ("len", res), "encoded.len()"), BYTES_OF(res, "encoded")]
         if fn.name in ("serialize_seq", "serialize_map") and _len_unknown_path(p, fn):
             # C02.L: nothing written, error SerializeSeqLengthUnknown
             v = tbl.error_variant(F, p.ret)
@@ -250,6 +269,12 @@ def check_collect_str(run, F, helpers, fn):
     if counter is None or emitter is None or len(ws) != 2:
         run.bad("S", key, "expected one counting and one emitting fmt::Write helper inside collect_str, found %d" % len(ws), site)
         return
+    # the counting writer's counter: the field its write_str updates (whatever it is called)
+    CT = "ct"
+    for p0 in counter[1]:
+        for e0 in p0.events:
+            if e0["k"] == "write" and e0["loc"][0] == "F" and e0["loc"][1] == ("P", ("param", 1, counter[0].locals[1]["ty"])):
+                CT = e0["loc"][2]
     # provided methods of fmt::Write (write_char, write_fmt) must stay derived from write_str, or agree with it
     for o in pc.fns:
         if (o.impl_trait or "") == "core::fmt::Write" and "collect_str" in o.canon and o.name != "write_str":
@@ -260,7 +285,7 @@ def check_collect_str(run, F, helpers, fn):
                 ops = [p for p in eng.run(o) if p.status == "return"]
                 if len(ops) == 1:
                     wr = [e for e in ops[0].events if e["k"] == "write"]
-                    ctl = ("F", ("P", ("param", 1, o.locals[1]["ty"])), "ct")
+                    ctl = ("F", ("P", ("param", 1, o.locals[1]["ty"])), CT)
                     rc = tbl.residual_calls(ops[0])
                     if len(wr) == 1 and wr[0]["loc"] == ctl and len(rc) == 1 and rc[0]["key"].endswith("::len_utf8") \
                             and norm(rc[0]["args"][0]) == ("param", 2, "char"):
@@ -279,8 +304,8 @@ def check_collect_str(run, F, helpers, fn):
         p = ps[0]
         wr = [e for e in p.events if e["k"] == "write"]
         s = ("param", 2, w.locals[2]["ty"])
-        exp_old = ("init", ("F", ("P", ("param", 1, w.locals[1]["ty"])), "ct"))
-        if len(wr) == 1 and wr[0]["loc"] == ("F", ("P", ("param", 1, w.locals[1]["ty"])), "ct"):
+        exp_old = ("init", ("F", ("P", ("param", 1, w.locals[1]["ty"])), CT))
+        if len(wr) == 1 and wr[0]["loc"] == ("F", ("P", ("param", 1, w.locals[1]["ty"])), CT):
             v = norm(wr[0]["val"])
             want1 = ("bin", "Add", exp_old, ("len", s), "usize")
             want2 = ("bin", "Add", ("len", s), exp_old, "usize")
@@ -338,7 +363,7 @@ def check_collect_str(run, F, helpers, fn):
         # the length written is the counter read back after pass one
         ctr_loc = wf[0]["args"][0]
         if ctr_loc[0] == "ref":
-            ct_after = ("getf", ("havoc", wf[0]["id"], ctr_loc[1]), "ct")
+            ct_after = ("getf", ("havoc", wf[0]["id"], ctr_loc[1]), CT)
             cells = [VAR(64, ct_after, "ctr.ct")]
             err = tbl.match_cells(cx, cells, between)
             if err:
